@@ -21,6 +21,10 @@ def conjuncts(g):
         vs = [z3.Const(g.var_name(i), g.var_sort(i)) for i in range(g.num_vars())]
         body = z3.substitute_vars(g.body(), *reversed(vs))
         return [z3.ForAll(vs, z3.Implies(body.arg(0), c)) for c in conjuncts(body.arg(1))]
+    if z3.is_implies(g) and z3.is_and(g.arg(1)):
+        return [z3.Implies(g.arg(0), c) for c in conjuncts(g.arg(1))]
+    if z3.is_quantifier(g) and not g.is_forall() and not g.is_lambda():
+        pass
     return [g]
 
 
@@ -49,7 +53,8 @@ def main():
                 out.append(r)
                 if r in ("unsat", "cvc5:unsat"):
                     break
-            print(f"   [{i}] {out}  {str(cj)[:160]!r}")
+            w = int(os.environ.get("DIAG_W", "160"))
+            print(f"   [{i}] {out}  {str(cj)[:w]!r}")
 
 
 bigstack.run(main)
